@@ -673,9 +673,9 @@ def stream_small(R):
     kv = R.pick(6, 10)
     for n, ents in fams:
         mats = list(all_matrices(n, ents))
-        if n == 3 and not R.quick() and len(mats) > 4000:
-            mats = rng.sample(mats, 4000)
-            R.note('small stream: 3x3 matrices over {0,1,-1} sampled to 4000 of the invertible ones')
+        if n == 3 and not R.quick() and len(mats) > 3000:
+            mats = rng.sample(mats, 3000)
+            R.note('small stream: 3x3 matrices over {0,1,-1} sampled to 3000 of the invertible ones')
         for M in mats:
             t = small_translation(rng, n)
             shape = tuple(rng.choice([1, 2, 3, 4]) for _ in range(n))
@@ -799,7 +799,7 @@ def stream_single_axis(R):
     """the helpers called directly with inputs that are broadcast along arbitrary axes or stored in another memory layout
     (Fortran, transposed, negative strides, non-contiguous), and whose first element is not special"""
     from glue.core.coordinate_helpers import pixel2world_single_axis, world2pixel_single_axis
-    N = R.pick(600, 5000)
+    N = R.pick(600, 4000)
     lines, meta = [], []
     for i in range(N):
         rng = R.subrng('single', i)
@@ -871,7 +871,7 @@ def stream_layout_links(R):
     dataset with 1-3-d coordinates, world coordinates requested on the image; and the same through the world -> pixel links.  Oracle only."""
     from glue.core import Data, DataCollection
     from glue.core.link_helpers import LinkSame
-    N = R.pick(250, 2000)
+    N = R.pick(250, 1200)
     nobs = 0
     for i in range(N):
         rng = R.subrng('layout_links', i)
